@@ -217,6 +217,10 @@ def history(draw):
              'content': draw(content_strategy(what))}
         if what in ('string', 'textfile') and draw(st.integers(0, 2)) == 0:
             a['strip'] = draw(st.sampled_from(['l', 'r', 'lr']))
+        if what == 'frame' and draw(st.integers(0, 2)) == 0:
+            # the frame carries row labels 10, 20, 30 ... and the assertion
+            # selects rows by label
+            a['strip'] = 'idx'
         return a
     if draw(st.booleans()):
         steps.append(an_assert(KINDS))       # normal mode, maybe missing ref
@@ -279,7 +283,10 @@ def valid(case):
                 if s['what'] not in WHATS or s['kind'] not in KINDS or (
                         s['file'] not in (0, 1)):
                     return False
-                if s.get('strip') not in (None, 'l', 'r', 'lr'):
+                if s.get('strip') not in (None, 'l', 'r', 'lr', 'idx') or (
+                        s.get('strip') == 'idx') != (
+                        s.get('strip') is not None
+                        and s['what'] == 'frame'):
                     return False
                 c = s['content']
                 if s['what'] in ('string', 'textfile'):
@@ -420,6 +427,12 @@ def pin_mtime(path):
 def do_assert(rt, what, value, ref_path, kind, actdir, n, strip=None):
     """Perform the assertion; returns (ok, raised)."""
     kw = {}
+    if strip == 'idx':
+        import pandas as pd
+        value = value.copy()
+        value.index = pd.Index([10 * (i + 1) for i in range(len(value))])
+        return quiet(rt.assertDataFrameCorrect, value, ref_path, kind=kind,
+                     condition=lambda d: (d.index % 20) == 10)
     if strip:
         kw = {'lstrip': 'l' in strip, 'rstrip': 'r' in strip}
     if what == 'string':
